@@ -4,8 +4,8 @@ ASSUME = ["the file's data is the texture T (computable by TLC and by the harnes
           "longer replies are located in the data by the harness (all matching positions are logged) and TLC checks the specification's "
           "position is among them",
           "ReaderI abstracts data to member identities and the cache to a policy-free set (a full cache may refuse or evict anything); it is "
-          "bound to the code through the P-level traces and through its as-coded switches reproducing the failures observed on the pinned tree, "
-          "not through hook traces",
+          "bound to the code through the P-level traces, through its as-coded switches reproducing the failures observed on the pinned tree, "
+          "and (C03) through hook traces of the real reader validated against ReaderI itself (ReaderITrace; a mismatch is MODEL-DRIFT)",
           "a call is a hang only if it exceeds the watchdog period and its own goroutine is parked in a channel/sync primitive inside package bgzf"]
 
 
@@ -61,3 +61,77 @@ MUTS = [("wrong-byte", mut_data), ("wrong-LastChunk-End", mut_end), ("early-EOF"
 def model(ctx, cfgs_quick, cfgs_thorough):
     for c in (cfgs_quick if ctx.tier == "quick" else cfgs_thorough):
         ctx.mcheck("BgzfReader", "ReaderMC", "ReaderMC_%s.cfg" % c, timeout=7200, heap="24g" if ctx.tier == "thorough" else None)
+
+
+# ---- conformance of ReaderI with the real reader (hook traces)
+ICFGS = ["rd1_nokeep", "rd1_keep", "rd2_nokeep", "rd2_keep", "rd3_nokeep", "rd3_keep"]
+
+
+def mut_iput(ev):
+    for e in ev:
+        if e.get("ev") == "c" and e.get("op") == "put":
+            e["ret"] = not e["ret"]
+            return ev
+
+
+def mut_isend(ev):
+    for i, e in enumerate(ev):
+        if e.get("ev") == "h" and e.get("p") == "a.send":
+            del ev[i]
+            return ev
+
+
+def mut_iback(ev):
+    for e in ev:
+        if e.get("ev") == "h" and e.get("p") == "n.back":
+            e["m"] = e["m"] % 3 + 1
+            return ev
+
+
+def iconformance(ctx):
+    """Traces of the real reader carrying every hook point, every cache operation and the API calls and
+    returns must be behaviours of ReaderI: the implementation-shaped specification is bound to the code it
+    describes.  A mismatch is MODEL-DRIFT, never a violation."""
+    import json
+    from lib import vrun
+    trace = "%s/rd_itrace.ndjson" % ctx.work
+    s = ctx.drive(["rd", "--mode", "itrace", "--out", trace], timeout=7200)
+    ctx.extra["driver_itrace"] = s
+    for c in ICFGS:
+        ctx.validate("BgzfReader", "ReaderITrace", "ReaderITrace_%s.cfg" % c, trace, is_p=False, branching=True)
+    if ctx.tier == "thorough":
+        # the binding itself: a cache outcome flipped, a read-ahead hand-over dropped, a wrong member handed back
+        for name, mut in (("cache-put-outcome", mut_iput), ("read-ahead-send-dropped", mut_isend), ("handed-back-member", mut_iback)):
+            ev = vrun.read_ndjson(trace)[:3000]
+            m = mut(json.loads(json.dumps(ev)))
+            if m is None:
+                continue
+            p = "%s/rit_%s.ndjson" % (ctx.work, name)
+            with open(p, "w") as f:
+                for e in m:
+                    f.write(json.dumps(e) + "\n")
+            rej = sum(len(vrun.validate_trace("BgzfReader", "ReaderITrace", "ReaderITrace_%s.cfg" % c, p, branching=True).rejected) for c in ICFGS)
+            if rej == 0:
+                raise vrun.Infra("ReaderITrace accepted a mutated hook trace (%s)" % name)
+            ctx.extra.setdefault("binding_selftest", []).append(dict(mutation="ReaderITrace/" + name, applied=True, rejected=True))
+
+
+def schedules(ctx):
+    """Behaviours of ReaderI (TLC, simulation mode: an API history together with one interleaving of the
+    consumer, the read-ahead goroutine and the inflate goroutines) are replayed on the real reader: its
+    goroutines wait at the hook points and at the cache until the schedule says it is their turn.  The API
+    trace of every run is judged by ReaderP."""
+    import json
+    num = 120 if ctx.tier == "quick" else 1500
+    scheds = []
+    for cfg in ("rd2", "rd2cap2", "rd3"):
+        scheds += ctx.gen("BgzfReader", "ReaderSched", "ReaderSched_%s.cfg" % cfg, simulate="num=%d" % num, timeout=3000,
+                          extra=["-depth", "400", "-seed", str(1000 + ctx.seed)])
+    p = "%s/scheds.json" % ctx.work
+    json.dump(scheds, open(p, "w"))
+    trace = "%s/rd_sched.ndjson" % ctx.work
+    s = ctx.drive(["rd", "--mode", "sched", "--in", p, "--out", trace], timeout=7200)
+    ctx.extra["driver_sched"] = s
+    ctx.evaluations += s.get("lines", 0)
+    ctx.distinct += s.get("scenarios", 0)
+    ctx.validate("BgzfReader", "ReaderTrace", "ReaderTrace.cfg", trace)
